@@ -1,11 +1,14 @@
 /-
   EG.Driver.Faults — model side of the `faults.*` correspondence streams (harness/src/m_faults.rs).
 
-  For the styled shapes that have a model (rectangle, circle, ellipse, rounded rectangle) the
+  For the styled shapes (`faults.shape`: every kind of shapes.rs through Driver/ShapeView.lean — rectangle, circle,
+  ellipse, rounded rectangle, line, polyline, triangle with every stroke width; arc and sector when the op line
+  carries the hook tokens), texts (`faults.text`: `TextLayout.draw`) and images (`faults.image`: `Img.Image.draw`) the
   number `n` of target calls of the fault-free run is the length of the model's call list (every
   adapter forwards each call as exactly one call, so `n` does not depend on the adapter stack) — the
   list of calls `EG.C04.prefix_law_sites` speaks about, for whichever call sites they are made at —
-  and `tested` is the number of fault positions the harness enumerates for that `n` (all of them). Other drawables return `none` (printed `skip`).
+  and `tested` is the number of fault positions the harness enumerates for that `n` (all of them).
+  `faults.dotted` (rectangle with a dotted stroke) has no model: `none` (printed `skip`).
 
   `faults.whitespace`: `n` = length of the call list of `MonoFont.drawWhitespace` (EG/Model/Font.lean)
   for the font constants of the generated font table (fonts 0..2 = `ascii::FONT_4X6 / FONT_6X10 /
@@ -22,28 +25,16 @@
   named in the op, with the colour conversion where the harness stacks one. Kinds without a model
   here (text, dotted strokes, the other primitives) return `none`.
 -/
-import EG.Driver.Util
-import EG.Model.StyledRect
-import EG.Model.Circle
-import EG.Model.Ellipse
-import EG.Model.RoundedRect
+import EG.Driver.ShapeView
 import EG.Model.Font
+import EG.Model.TextLayout
+import EG.Model.ImageRaw
 import EG.Model.Adapters
 import EG.Model.FaultTarget
 import EG.Model.ImageRaw
 import EG.Model.Conv
 namespace EG.Driver
 open EG
-
-private def fParseOptColor (s : String) : Option Color := if s == "-" then none else some (parseNat s)
-private def fAlignOf : Nat → StrokeAlignment | 0 => .inside | 1 => .center | _ => .outside
-
-private def Toks.fstyle (t : Toks) : Style × Toks :=
-  let (f, t) := t.str
-  let (s, t) := t.str
-  let (w, t) := t.nat
-  let (a, t) := t.nat
-  (⟨fParseOptColor f, fParseOptColor s, w, fAlignOf a⟩, t)
 
 /-- number of fault positions enumerated for a run of `n` calls: every `k < n` (no sampling). -/
 private def testedCount (n : Nat) : Nat := n
@@ -139,39 +130,15 @@ private def faultImage (bits w h sub : Nat) : Option Img.Image :=
 /-- the call list, the adapter stack (root-most first) and the root kind of the wrapped op -/
 private def prefixSubject (stream : String) (t : Toks) : Option (List Call × Stack × Bool) :=
   if stream == "faults.shape" then
-    let (kind, t) := t.str
-    match kind with
-    | "rect" =>
-      let (r, t) := t.rect
-      let (s, t) := t.fstyle
+    -- every shape kind of shapes.rs through Driver/ShapeView.lean (the same views `faults.shape` itself uses)
+    match parseShapeView t with
+    | none => none
+    | some (view, t) =>
       let (adapter, t) := t.nat
       let (native, _) := t.nat
-      some (StyledRect.drawCalls s r, faultStack adapter, native == 1)
-    | "circle" =>
-      let (p, t) := t.pt
-      let (d, t) := t.nat
-      let (s, t) := t.fstyle
-      let (adapter, t) := t.nat
-      let (native, _) := t.nat
-      some ((⟨p, d⟩ : Circle).drawStyled ⟨s.fill, s.stroke, s.width, s.align⟩, faultStack adapter, native == 1)
-    | "ellipse" =>
-      let (p, t) := t.pt
-      let (sz, t) := t.sz
-      let (s, t) := t.fstyle
-      let (adapter, t) := t.nat
-      let (native, _) := t.nat
-      some ((⟨p, sz⟩ : Ellipse).drawStyled ⟨s.fill, s.stroke, s.width, s.align⟩, faultStack adapter, native == 1)
-    | "rrect" =>
-      let (r, t) := t.rect
-      let (tl, t) := t.sz
-      let (tr, t) := t.sz
-      let (br, t) := t.sz
-      let (bl, t) := t.sz
-      let (s, t) := t.fstyle
-      let (adapter, t) := t.nat
-      let (native, _) := t.nat
-      some ((⟨r, ⟨tl, tr, br, bl⟩⟩ : RoundedRect).drawStyled s, faultStack adapter, native == 1)
-    | _ => none
+      match (view ⟨0, 0⟩).calls () with
+      | some cs => some (cs, faultStack adapter, native == 1)
+      | none => none
   else if stream == "faults.whitespace" then
     let (fi, t) := t.nat
     let (mask, t) := t.nat
@@ -260,36 +227,50 @@ def handleFaults (stream : String) (t : Toks) : Option String :=
     let (c, t) := t.nat
     let (adapter, _) := t.nat
     answer (onRoot adapter [Call.clear c])
+  else if stream == "faults.text" then
+    -- `Text::with_alignment(&s, Point::new(3, 9), style, align)`: default baseline (alphabetic) and line height.
+    -- The glyph bits do not influence the NUMBER of calls (one call per glyph whatever its pixels), so the
+    -- atlas handed to the model is all-off. Stack 6 = `color_converted()` on the bare target (one call per call).
+    let (fi, t) := t.nat
+    let (mask, t) := t.nat
+    let (al, t) := t.nat
+    let (cps, t) := t.natList
+    let (adapter, _) := t.nat
+    let align : TextLayout.Alignment := match al with | 0 => .left | 1 => .center | _ => .right
+    match faultFont fi with
+    | some f =>
+      let tx : TextLayout.Text := ⟨cps, ⟨3, 9⟩, faultStyle mask, ⟨align, .alphabetic, .percent 100⟩⟩
+      answer (onRoot (if adapter == 6 then 0 else adapter) (TextLayout.draw f (fun _ => false) tx).1)
+    | none => none
+  else if stream == "faults.image" then
+    -- the byte order does not influence the number of calls; `color_converted()` on top of the stack (1 / 8 bpp)
+    -- forwards every call as one call
+    let (bits, t) := t.nat
+    let (sz, t) := t.sz
+    let (sub, t) := t.nat
+    let (adapter, _) := t.nat
+    let bpr := (sz.w * bits + 7) / 8
+    let data := (List.range (bpr * sz.h)).map (fun i => (i * 37 + 11) % 256)
+    match Img.ImageRaw.new bits .be data sz with
+    | .error _ => none
+    | .ok im =>
+      let raw : Img.Drawable := .raw im
+      let s1 := raw.subImage ⟨⟨1, 0⟩, ⟨3, 2⟩⟩
+      let s2 := s1.subImage ⟨⟨1, 1⟩, ⟨4, 4⟩⟩
+      let img : Img.Image :=
+        match sub with
+        | 0 => Img.Image.new raw ⟨2, 3⟩
+        | 1 => Img.Image.new s1 ⟨2, 3⟩
+        | _ => Img.Image.withCenter s2 ⟨2, 3⟩
+      answer (onRoot (if adapter == 6 then 0 else adapter) img.draw)
   else
   if stream != "faults.shape" then none else
-  let (kind, t) := t.str
-  let calls? : Option (List Call) :=
-    match kind with
-    | "rect" =>
-      let (r, t) := t.rect
-      let (s, _) := t.fstyle
-      some (StyledRect.drawCalls s r)
-    | "circle" =>
-      let (p, t) := t.pt
-      let (d, t) := t.nat
-      let (s, _) := t.fstyle
-      some ((⟨p, d⟩ : Circle).drawStyled ⟨s.fill, s.stroke, s.width, s.align⟩)
-    | "ellipse" =>
-      let (p, t) := t.pt
-      let (sz, t) := t.sz
-      let (s, _) := t.fstyle
-      some ((⟨p, sz⟩ : Ellipse).drawStyled ⟨s.fill, s.stroke, s.width, s.align⟩)
-    | "rrect" =>
-      let (r, t) := t.rect
-      let (tl, t) := t.sz
-      let (tr, t) := t.sz
-      let (br, t) := t.sz
-      let (bl, t) := t.sz
-      let (s, _) := t.fstyle
-      some ((⟨r, ⟨tl, tr, br, bl⟩⟩ : RoundedRect).drawStyled s)
-    | _ => none
-  match calls? with
-  | some cs => some s!"n={cs.length} tested={testedCount cs.length}"
+  -- every shape kind of shapes.rs (Driver/ShapeView.lean; arcs and sectors when the op carries the hook tokens)
+  match parseShapeView t with
   | none => none
+  | some (view, _) =>
+    match (view ⟨0, 0⟩).calls () with
+    | some cs => answer cs
+    | none => some "stuck"
 
 end EG.Driver
